@@ -344,7 +344,13 @@ func init() {
 	fw.Register(&fw.Property{
 		ID:         "C02",
 		Generate:   generate,
-		RunImpl:    runScenario,
+		RunImpl: func(in string) (string, error) {
+			obs, err := runScenario(in)
+			if err != nil {
+				err = fmt.Errorf("%w [input %s]", err, in) // inconclusive either way; say which case
+			}
+			return obs, err
+		},
 		Nontrivial: nontrivial,
 		Rule: "per case one simulated world (real core in a child process, simulated Mesos master/executors/Consul/git): " +
 			"(a) 1..2 tasks x every critical mix x every assignment of {ok, error reply staying, error reply to ERROR} at each of 5 positions " +
